@@ -9,20 +9,22 @@ PROP = dict(
     assumptions=['no two distinct positions met share a 64-bit hash (Canonical compares boards by hash)'],
 )
 MANIFEST = dict(
-    text="Coq (Properties/C15.v, closed under the global context): canonical_legal_images - whenever the model of symmetry.Canonical "
-         "(real hash basis) returns cs for ms, cs has the length of ms and for every k the first k moves of cs and of ms are legal games by "
-         "Rules.v from the start position, the canonical one ending in one of the eight images of the other (so the input game is legal too); "
-         "for ANY int8 move coordinates (an accepted move is proved to start on the board, through the code's wrapping flips), type <= 8 and "
-         "slides with >= 1 drop (TransformMove panics otherwise), under the explicit NoCollision hypothesis (a board whose hash equals board 0's "
-         "shows board 0's position). Proved from the loop invariant (board i = image i of board 0; tfn = compose rots is one of the eight "
-         "symmetries and maps the original position onto board 0; a rotation is taken only from the stabiliser) over C14's rules_equivariant "
-         "and C01's preservation theorems: nothing is assumed about the boards for sizes 3..6 (at most 64 pieces); for sizes 7, 8 the exact "
-         "limit of the bit representation (no stack above 64 on the boards produced) is a hypothesis. Concrete 5x5 and 8x8 games with two "
-         "rotations satisfy the hypotheses. preferMove is a strict total order on (Y, X, Type). "
+    text="Coq (Properties/C15.v, closed under the global context), all three theorems of DESIGN 5.15 for the model of symmetry.Canonical with the "
+         "real hash basis: (1) canonical_legal_images - when Canonical returns cs for ms, cs has the length of ms and for every k the first k "
+         "moves of cs and of ms are legal games by Rules.v from the start position, the canonical one ending in one of the eight images of the "
+         "other (so the input is legal too); (2) canonical_class_invariant - it then returns the same cs for each of the eight images of ms; "
+         "(3) canonical_idempotent - and cs for cs. For ANY int8 move coordinates (an accepted move is proved to start on the board, through the "
+         "code's wrapping flips), type <= 8 and slides with >= 1 drop (TransformMove panics otherwise), under the explicit NoCollision "
+         "hypothesis (a board whose hash equals board 0's shows board 0's position). Proved from the loop invariant (board i = image i of "
+         "board 0; tfn = compose rots is one of the eight symmetries and maps the original position onto board 0), the fact that the candidate "
+         "loop computes the preferMove-minimum over exactly the stabiliser of board 0 (a group; preferMove a strict total order on an orbit), "
+         "C14's rules_equivariant, C01's preservation theorems and C08's equal_complete. Nothing is assumed about the boards for sizes 3..6 "
+         "(at most 64 pieces); for sizes 7, 8 the exact limit of the bit representation (no stack above 64 on the boards produced) is a "
+         "hypothesis. Concrete 5x5 and 8x8 games with two rotations satisfy the hypotheses. "
          "Execution: model of symmetry.Canonical (eight replay boards, rots prepend, compose last-applied-first, preferMove) compared with "
          "the implementation on every generated game; an independent Go oracle checks the three clauses of the property with its own symmetry maps, "
          "exhaustively for all short games on 3x3/4x4.",
-    ref='5.15', technique='Coq proof of canonical_legal_images + model/implementation differential + independent class-invariance / '
-                          'idempotence oracle (exhaustive on short games)',
-    note="Trusted: Coq kernel, extraction, transcription of Canonical. canonical_class_invariant and canonical_idempotent are not proved "
-         "(decided by correspondence + oracle): theorem side partial in that respect.")
+    ref='5.15', technique='Coq proofs of canonical_legal_images, canonical_class_invariant, canonical_idempotent + model/implementation '
+                          'differential + independent class-invariance / idempotence oracle (exhaustive on short games)',
+    note="Trusted: Coq kernel, extraction, transcription of Canonical. The theorems speak about accepted games (canonical ms = Ok cs); that every "
+         "legal game is accepted is not proved (covered by the correspondence and the oracle).")
